@@ -861,3 +861,6 @@ func (r *Reach) Values(v ssa.Value) []ssa.Value {
 func (r *Reach) EvalAlt(a RetAlt, k int) Abs {
 	return r.evalGuarded(a.Results[k], append(append([]Guard{}, a.Guards...), Guards(a.Ret)...))
 }
+
+// EvalInt: the integer v has one constant value on every explored path that reaches it.
+func (r *Reach) EvalInt(v ssa.Value) (int64, bool) { return r.evalInt(v, 0) }
